@@ -298,6 +298,16 @@ def watch_option_wired(ctx):
                 fl = body.prov.flows_forward(t["dest"]["local"])
                 if any("WatchOption" in body.locals[l]["ty"] for l in fl):
                     ok = True
+                # bound to a local before the async block and converted inside it: the captured variable is read there and flows into a WatchOption
+                for blk in body.normal_blocks():
+                    for st in blk["stmts"]:
+                        if st["rv"]["k"] == "agg" and st["rv"].get("coroutine") == ma.name:
+                            for nm, o in zip(st["rv"].get("fields") or [], st["rv"]["ops"]):
+                                if operand_local(o) in fl:
+                                    mab = f.bodies[ma.name]
+                                    for l2, loc in enumerate(mab.locals):
+                                        if "WatchOption" in loc["ty"] and any(a[0] == "field" and a[1].startswith("{env of") and a[2] == nm for a in mab.prov.atoms(l2, interproc=False)):
+                                            ok = True
     n += 1
     ctx.check(ok, "main/option-from-watch-flag", [m.loc()], "the watch option is not derived from the WATCH command-line flag")
     ctx.need(n >= 2, "construction of WatchOption::Enabled and its use in main")
